@@ -275,7 +275,14 @@ def stage(ctx, tmp):
     configs = [(2, 2, 2, True), (2, 1, 1, False), (1, 2, 3, True)] if ctx.quick else [(2, 2, 3, True), (3, 2, 2, True), (3, 1, 1, False), (1, 3, 4, True)]
     vectors = []
     for nloc, nf, maxt, timed in configs:
-        r = ctx.tlc("SwanFile", spec_cfg(nloc, nf, maxt, timed), workers=4, label="SWAN file protocol: %d locations, %d rows, <= %d records, timed=%s" % (nloc, nf, maxt, timed))
+        r = ctx.tlc("SwanFile", spec_cfg(nloc, nf, maxt, timed), workers=4, coverage=(nloc, nf, maxt, timed) == configs[0],
+                    label="SWAN file protocol: %d locations, %d rows, <= %d records, timed=%s" % (nloc, nf, maxt, timed))
+        if r.coverage:
+            # vacuity: every writer and reader action of the model is taken in the first (time-dependent) configuration
+            idle = [a for a in ("WTime", "WBlock", "WClose", "REnter", "RTime", "RHdr", "RFac", "RRow", "RExitOk", "RExitNone") if r.coverage.get(a, (0, 0))[1] == 0]
+            if idle:
+                from harness.core import MachineryError
+                raise MachineryError("SwanFile.tla: actions never taken in the bounded model (vacuous check): %s" % idle)
         for inv in r.violated:
             if inv != "EmitInv":
                 ctx.violation({"where": "SwanFile", "invariant": inv}, "SwanFile.tla: %s violated" % inv, r.cex[:3000])
